@@ -8,6 +8,9 @@ import (
 	"fmt"
 	"math"
 	"net/netip"
+	"runtime"
+	"sync"
+	"sync/atomic"
 	"testing"
 	"time"
 
@@ -231,4 +234,88 @@ func (b *vfBucket) orZero(burst float64, at time.Duration) *vfBucket {
 	}
 	c := *b
 	return &c
+}
+
+// TestVfC15Concurrent: many goroutines charge one subnet at the same virtual instant; the bucket must be
+// created once and admit exactly its burst.
+func TestVfC15Concurrent(t *testing.T) {
+	st := vfkit.Stats("TestVfC15Concurrent", "4-32 goroutines x 5-40 calls of cost 1 from addresses of one /24 (or /48) at one virtual instant, racing on the creation of the subnet's bucket, next to a second subnet doing the same; oracle: each subnet is admitted exactly min(burst, calls) - one bucket per subnet, created once; non-trivial = calls exceed the burst")
+	defer vfkit.Flush()
+	base := time.Now()
+	rapid.Check(t, func(t *rapid.T) {
+		burst := rapid.SampledFrom([]int{1, 5, 20, 50}).Draw(t, "burst")
+		g := rapid.SampledFrom([]int{4, 8, 16, 32}).Draw(t, "goroutines")
+		m := rapid.IntRange(5, 40).Draw(t, "calls")
+		v6 := rapid.Bool().Draw(t, "v6")
+		cl := limiter.NewClientLimiter(limiter.ClientLimiterOpts{Limit: 1, Burst: burst})
+		defer cl.Close()
+		addr := func(sub, host int) netip.Addr {
+			if v6 {
+				var x [16]byte
+				x[0], x[1], x[5] = 0x20, 0x01, byte(sub)
+				x[15] = byte(host)
+				return netip.AddrFrom16(x)
+			}
+			return netip.AddrFrom4([4]byte{10, 9, byte(sub), byte(host)})
+		}
+		var admitted [2]atomic.Int32
+		var start atomic.Bool
+		var wg sync.WaitGroup
+		for i := 0; i < g; i++ {
+			wg.Add(1)
+			go func(i int) {
+				defer wg.Done()
+				for !start.Load() {
+					runtime.Gosched()
+				}
+				sub := i % 2
+				for j := 0; j < m; j++ {
+					if cl.AllowN(addr(sub, 1+(i*m+j)%250), base, 1) {
+						admitted[sub].Add(1)
+					}
+				}
+			}(i)
+		}
+		start.Store(true)
+		wg.Wait()
+		for sub := 0; sub < 2; sub++ {
+			calls := ((g + 1 - sub) / 2) * m
+			want := min(burst, calls)
+			if got := int(admitted[sub].Load()); got != want {
+				t.Fatalf("subnet %d: %d of %d simultaneous calls (cost 1) admitted, a single bucket with burst %d admits exactly %d", sub, got, calls, burst, want)
+			}
+		}
+		st.Case(vfkit.Fingerprint(burst, g, m, v6), g/2*m > burst, nil, func() any {
+			return map[string]any{"burst": burst, "goroutines": g, "calls_each": m, "v6": v6}
+		})
+	})
+}
+
+// TestVfC15GcKeepsLive (thorough tier only, 65 s of real time): the limiter's garbage collector runs once
+// a minute; a bucket that is in use must survive it, otherwise its subnet gets a fresh burst every minute.
+func TestVfC15GcKeepsLive(t *testing.T) {
+	st := vfkit.Stats("TestVfC15GcKeepsLive", "one limiter (limit 1/s, burst 30) used by a flooding /24 every 50 ms of real time for 65 s, across the garbage collector's one-minute tick, with idle subnets next to it; oracle: admitted cost <= burst + rate x elapsed at every moment; non-trivial = the run crossed a gc tick")
+	defer vfkit.Flush()
+	rapid.Check(t, func(t *rapid.T) {
+		burst := rapid.SampledFrom([]int{10, 30}).Draw(t, "burst")
+		cl := limiter.NewClientLimiter(limiter.ClientLimiterOpts{Limit: 1, Burst: burst})
+		defer cl.Close()
+		start := time.Now()
+		admitted := 0
+		for i := 0; time.Since(start) < 65*time.Second; i++ {
+			now := time.Now()
+			if cl.AllowN(netip.AddrFrom4([4]byte{10, 1, 1, byte(1 + i%200)}), now, 1) {
+				admitted++
+			}
+			if i%40 == 0 {
+				cl.AllowN(netip.AddrFrom4([4]byte{10, 2, byte(i / 40), 1}), now, 1) // idle subnets for the gc to collect
+			}
+			if float64(admitted) > float64(burst)+time.Since(start).Seconds()+1.5 {
+				t.Fatalf("after %.1fs the flooding subnet has %d admitted calls, more than burst %d + 1/s x elapsed: its bucket was replaced while in use", time.Since(start).Seconds(), admitted, burst)
+			}
+			time.Sleep(50 * time.Millisecond)
+		}
+		st.Case(vfkit.Fingerprint(burst, admitted), true, nil, func() any { return map[string]any{"burst": burst, "admitted_in_65s": admitted} })
+		st.Case(vfkit.Fingerprint(burst, admitted, "x"), true, nil, nil)
+	})
 }
